@@ -15,7 +15,11 @@ verus! {
 /*@ include path=net_model.rs @*/
 //@ body-begin
 
-/*@ item file=crates/lib/src/protocols/gamespy/protocols/three/protocol.rs kind=const name=THIS_SESSION_ID @*/
+/*@ item file=crates/lib/src/protocols/gamespy/protocols/three/protocol.rs kind=const name=THIS_SESSION_ID
+attrs {
+pub
+}
+@*/
 /*@ item file=crates/lib/src/protocols/gamespy/protocols/three/protocol.rs kind=const name=PACKET_SIZE @*/
 /*@ item file=crates/lib/src/protocols/gamespy/protocols/three/protocol.rs kind=struct name=RequestPacket @*/
 /*@ item file=crates/lib/src/protocols/gamespy/protocols/three/protocol.rs kind=struct name=GameSpy3 @*/
@@ -58,10 +62,10 @@ pub fn idiom_any_empty(values: &Vec<Vec<u8>>) -> (r: bool)
 
 /// body of the handshake reply: the challenge as a NUL-terminated decimal string
 pub open spec fn hs_body(text: Seq<char>) -> Seq<u8> { cat(cstr(text), Seq::empty()) }
-pub open spec fn handshake_request() -> Seq<u8> { gs3_frame(65277u16, 9u8, 1u32, None::<i32>, None::<[u8; 4]>) }
-pub open spec fn data_request(challenge: Option<i32>, payload: [u8; 4]) -> Seq<u8> { gs3_frame(65277u16, 0u8, 1u32, challenge, Some(payload)) }
+pub open spec fn handshake_request() -> Seq<u8> { gs3_frame(65277u16, 9u8, THIS_SESSION_ID, None::<i32>, None::<[u8; 4]>) }
+pub open spec fn data_request(challenge: Option<i32>, payload: [u8; 4]) -> Seq<u8> { gs3_frame(65277u16, 0u8, THIS_SESSION_ID, challenge, Some(payload)) }
 /// a reply datagram: kind, session id 1 (big-endian), body
-pub open spec fn gs3_reply(kind: u8, body: Seq<u8>) -> Seq<u8> { cat(seq![kind], cat(enc_u32(false, 1u32), body)) }
+pub open spec fn gs3_reply(kind: u8, body: Seq<u8>) -> Seq<u8> { cat(seq![kind], cat(enc_u32(false, THIS_SESSION_ID), body)) }
 
 impl GameSpy3 {
 /*@ fn file=crates/lib/src/protocols/gamespy/protocols/three/protocol.rs impl="impl GameSpy3" name=receive props=C01,C13,C09,C08
